@@ -1,0 +1,12 @@
+//go:build verif
+// +build verif
+
+package erpc
+
+// VerifWaitHandlers blocks until every handler context of the session that was handed to a
+// handler goroutine has been returned (the wait a graceful close performs), without closing.
+func VerifWaitHandlers(sess Session) {
+	if s, ok := sess.(*session); ok {
+		s.graceCtxWait()
+	}
+}
